@@ -970,8 +970,9 @@ firsts = [next(g) for g in gs]
 
 if __name__ == "__main__":
     bad = 0
-    for name, ok, d in run_controls():
+    results = run_controls()
+    for name, ok, d in results:
         if not ok:
             bad += 1
             print("FAIL", name, d)
-    print(f"{len(PROGRAMS) - bad}/{len(PROGRAMS)} controls behave")
+    print(f"{len(results) - bad}/{len(results)} controls behave")
